@@ -84,3 +84,40 @@ Theorem C20_xxh64_vectors :
   xxh64 [97;47;98;47;99] = 0xe94f700086cf8f20.
 Proof. exact xxh64_vectors. Qed.
 Print Assumptions C20_xxh64_vectors.
+
+(* ---- name objects (builders, shared prefixes, repeated use) -------------------------------- *)
+
+(* Every builder returns an object with empty caches ... *)
+Theorem C20_builders_are_fresh : forall o x,
+  (o_isl_sdk (obj_realm o x) = 0 /\ o_isl_srv (obj_realm o x) = 0 /\ o_hp (obj_realm o x) = None) /\
+  (o_isl_sdk (obj_swamp o x) = 0 /\ o_isl_srv (obj_swamp o x) = 0 /\ o_hp (obj_swamp o x) = None).
+Proof. exact builders_are_fresh. Qed.
+Print Assumptions C20_builders_are_fresh.
+
+(* ... and an object never queried answers with the pure function of its own parts / path. *)
+Theorem C20_fresh_object_answers_pure : forall o n island depth maxf,
+  (o_isl_sdk o = 0 -> fst (obj_island_sdk o n) = island_sdk (obj_triple o) n) /\
+  (o_isl_srv o = 0 -> fst (obj_island_srv o n) = island_srv (obj_triple o) n) /\
+  (o_hp o = None -> fst (obj_path ROOT o island depth maxf) = pure_path ROOT (o_path o) island depth maxf).
+Proof. exact fresh_object_answers_pure. Qed.
+Print Assumptions C20_fresh_object_answers_pure.
+
+(* Whatever was asked of the sanctuary and sanctuary/realm prefix objects, the swamp name built
+   from them has the island and location of its own triple. *)
+Theorem C20_prefix_queries_do_not_leak : forall s r w n1 n2 n island depth maxf,
+  let o1 := snd (obj_island_srv (snd (obj_island_sdk (obj_sanct s) n1)) n1) in
+  let o2 := snd (obj_island_srv (snd (obj_island_sdk (obj_realm o1 r) n2)) n2) in
+  let o3 := obj_swamp o2 w in
+  let t := {| sanct := s; realm := r; swamp := w |} in
+  fst (obj_island_sdk o3 n) = island_sdk t n /\
+  fst (obj_island_srv o3 n) = island_srv t n /\
+  o_path o3 = path_of t /\
+  fst (obj_path ROOT o3 island depth maxf) = model_path t island depth maxf.
+Proof. exact prefix_queries_do_not_leak. Qed.
+Print Assumptions C20_prefix_queries_do_not_leak.
+
+(* A repeated query with the same N repeats the answer; queries never alter the name. *)
+Theorem C20_repeated_query_repeats : forall o n,
+  0 < n -> fst (obj_island_sdk (snd (obj_island_sdk o n)) n) = fst (obj_island_sdk o n).
+Proof. exact repeated_query_repeats. Qed.
+Print Assumptions C20_repeated_query_repeats.
